@@ -200,7 +200,9 @@ Definition coin_clause (c : c03_case) (a : Z) (d : string) (b f : Z) : list stri
            requested amount arrives at the recorded beneficiary *)
         (if drop <=? amount_of cs d + (if fresh then share else full_share) then [] else ["custody-release-exceeds-request"]) ++
         undue ++
-        (if (benef =? a) || (amount_of cs d <=? bal_delta c benef d) || (drop <=? full_share) then []
+        (* (a beneficiary who signed this transaction also paid its fee, which went to the fee collector) *)
+        (if (benef =? a) || (amount_of cs d <=? bal_delta c benef d + (if signed c benef then Z.max 0 (bal_delta c MOD_FEES d) else 0))
+            || (drop <=? full_share) then []
          else ["custody-release-not-to-beneficiary"])
       else
         (* distinct listed custodians (the caller included when his approval is new) fall short
